@@ -13,7 +13,7 @@ ASSUMPTIONS = [
 TRUSTED = ['Lean 4.33 kernel', 'axioms: propext, Classical.choice, Quot.sound',
            'hand-written model Model/Serial.lean over Model/MState.lean (tied by this correspondence)',
            'harness/mhist.py, harness/props/c07.py (history generator, document conversion, comparison)']
-WEIGHTS = {'add_asset': 12, 'remove_asset': 2, 'add_association': 10, 'remove_association': 1, 'remove_asset_from_association': 1,
+WEIGHTS = {'add_asset': 12, 'remove_asset': 2, 'add_association': 10, 'set_assoc_extras': 3, 'remove_association': 1, 'remove_asset_from_association': 1,
            'add_attacker': 3, 'remove_attacker': 1, 'add_entry_point': 6, 'remove_entry_point': 1}
 NAMES = ['A', 'B', 'yes', '0123', '- x', 'a: b', '#c', 'é€', 'two\nlines', ' lead', "q'uo\"te", 'null', '~', '1e3', '']
 
